@@ -132,6 +132,25 @@ func (sp spec) generate() []int64 {
 				xs[i] = clampLat(hi + g.Int63n(whi))
 			}
 		}
+	case "zeromix":
+		// many exact zeros among a few non-zero values: interleaved at random, or in runs after a large value
+		vals := []int64{int64(time.Millisecond) * (1 + g.Int63n(20)), int64(time.Millisecond) * (1 + g.Int63n(20)), 1 + g.Int63n(1000)}
+		if g.Intn(2) == 0 {
+			p0 := 0.5 + 0.45*g.Float64()
+			for i := range xs {
+				if g.Float64() >= p0 {
+					xs[i] = vals[g.Intn(len(vals))]
+				}
+			}
+		} else {
+			run := 2 + g.Intn(40)
+			big := int64(time.Second) * (1 + g.Int63n(30))
+			for i := range xs {
+				if i%run == 0 {
+					xs[i] = big + g.Int63n(3)
+				}
+			}
+		}
 	case "lognormal":
 		mu := math.Log(float64(time.Microsecond)) + g.Float64()*math.Log(1e6)
 		sigma := 0.1 + g.Float64()*2.4
@@ -175,7 +194,7 @@ func (sp spec) generate() []int64 {
 	return xs
 }
 
-var dists = []string{"uniform", "lognormal", "constant", "fewvalued", "bimodal"}
+var dists = []string{"uniform", "lognormal", "constant", "fewvalued", "bimodal", "zeromix"}
 var orders = []string{"random", "sorted", "reverse"}
 
 func genSize(r *kit.Rng, maxN int) int {
@@ -219,8 +238,11 @@ func genSpec(r *kit.Rng, maxN int) spec {
 		}
 		sort.Ints(sp.Closes)
 	}
-	if sp.N <= 20000 && r.Chance(0.08) {
+	if sp.N <= 20000 && (r.Chance(0.08) || (sp.Dist == "zeromix" && r.Chance(0.6))) {
 		sp.CLI = true
+	}
+	if sp.Dist == "zeromix" && r.Chance(0.7) {
+		sp.Order = "random" // keep the zeros interleaved with / following the non-zero values
 	}
 	if r.Chance(0.3) {
 		sp.ErrTail = true
@@ -748,7 +770,7 @@ func loadSpec(path string) (spec, bool) {
 func runC11(c *run.Ctx, s *kit.Summary) {
 	r := kit.NewRng(c.Seed)
 	s.Rule = "latency multisets of 1..20000 (quick) / 1..100000 (thorough) samples, sizes biased to 1..5, ≤100, around the first compression passes (800/801, 1600/1601) and the maximum; " +
-		"uniform (incl. narrow ranges with many ties), log-normal, constant, few-valued (2..5 values), bimodal with gaps of 3..12 orders of magnitude (half of them with the mode boundary within ±3% of a reported percentile), " +
+		"uniform (incl. narrow ranges with many ties), log-normal, constant, few-valued (2..5 values), zero-mix (50..95% exact zeros interleaved with 1..3 non-zero values, or runs of zeros after a large value; 60% of them also through `vegeta report`), bimodal with gaps of 3..12 orders of magnitude (half of them with the mode boundary within ±3% of a reported percentile), " +
 		"3% with zero latencies; arrival orders random / sorted / reverse-sorted; per set ~130 quantile arguments (Close's four, the HDR ladder, 0, 1, segment borders ± 1 ulp, tails, out of range, NaN); " +
 		"compression pass: on vegeta's own estimator the Adds that trigger process (all for n ≤ 2500, else the first two, 2% and the last), one plain Add and the process() at Close; plus stand-alone digests with compression 1..20 (tiny buffers, incl. the len(processed) > maxProcessed trigger, weights 1..4, NaN samples) with EVERY Add checked; " +
 		"histories: 30% with 1..3 intermediate Close calls / HDR reports without Close, 20% with a second Close; 30% with failed requests (slowest tenth code 0 + error, other codes mixed); 8% also through `vegeta report` (json, text, hdrplot; gob/JSON/CSV input; a third with -every); oracle on fields, JSON, text, HDR rows and the command's outputs; " +
